@@ -1067,6 +1067,9 @@ tp_create(tp_settings_p s, tp_p *ptp) {
 	if (0 == s->threads_max) {
 		s->threads_max = cpu_count;
 	}
+	/* Check size overflow: + 1 for pool virtual thread. */
+	if (((SIZE_MAX - sizeof(tp_t)) / sizeof(tp_thread_t)) <= s->threads_max)
+		return (EINVAL);
 	tp = (tp_p)calloc(1, (sizeof(tp_t) + ((s->threads_max + 1) * sizeof(tp_thread_t))));
 	if (NULL == tp)
 		return (ENOMEM);
